@@ -6,7 +6,10 @@ export GOFLAGS=-mod=mod GOPROXY=off GOSUMDB=off GOTOOLCHAIN=local
 mkdir -p bin
 cp -n /repo/go.sum go.sum 2>/dev/null || true
 fail=0
-ids=$(python3 -c "import json;c=json.load(open('../checks.json'));print(' '.join((x['id'].lower()+(':race' if x.get('race') else '')) for x in c['checks']))")
+ids=$(python3 -c "
+import json,os
+cs=[json.load(open('../checks.d/'+f)) for f in sorted(os.listdir('../checks.d')) if f.endswith('.json')]
+print(' '.join((x['id'].lower()+(':race' if x.get('race') else '')) for x in cs))")
 build() {
   id=${1%%:*}; race=""; out="bin/$id.test"
   if [[ "$1" == *:race ]]; then race="-race"; out="bin/$id.race.test"; fi
